@@ -420,6 +420,7 @@ impl<'a> VisitMut for LetChain<'a> {
 /// generated file fail to compile → UNDECIDED). B must not contain `return` or `?` (their meaning would change).
 struct OptMapInline<'a> {
     stats: &'a mut Stats,
+    plain_map: bool,
 }
 struct HasEscape(bool);
 impl<'ast> Visit<'ast> for HasEscape {
@@ -433,6 +434,30 @@ impl<'ast> Visit<'ast> for HasEscape {
 impl<'a> VisitMut for OptMapInline<'a> {
     fn visit_expr_mut(&mut self, e: &mut syn::Expr) {
         syn::visit_mut::visit_expr_mut(self, e);
+        if self.plain_map {
+            if let syn::Expr::MethodCall(inner) = e {
+                if inner.method == "map" && inner.args.len() == 1 {
+                    if let syn::Expr::Closure(c) = &inner.args[0] {
+                        if c.inputs.len() == 1 {
+                            let mut he = HasEscape(false);
+                            he.visit_expr(&c.body);
+                            if he.0 {
+                                die("R10: closure body contains return/? — cannot inline");
+                            }
+                            let x = &inner.receiver;
+                            let p = match &c.inputs[0] {
+                                syn::Pat::Type(pt) => (*pt.pat).clone(),
+                                other => other.clone(),
+                            };
+                            let b = &c.body;
+                            self.stats.optmap_inlined += 1;
+                            *e = syn::parse_quote!(match #x { Some(#p) => Some(#b), None => None });
+                            return;
+                        }
+                    }
+                }
+            }
+        }
         if let syn::Expr::MethodCall(outer) = e {
             if outer.method == "unwrap_or" && outer.args.len() == 1 {
                 if let syn::Expr::MethodCall(inner) = &*outer.receiver {
@@ -862,8 +887,8 @@ fn emit_fn(ctx: &mut Ctx, d: &FnDir, out: &mut String) {
     }
 
     // ---- R10 (opt-in)
-    if d.opts.contains_key("r10") {
-        OptMapInline { stats: &mut stats }.visit_block_mut(&mut block);
+    if d.opts.contains_key("r10") || d.opts.contains_key("r10map") {
+        OptMapInline { stats: &mut stats, plain_map: d.opts.contains_key("r10map") }.visit_block_mut(&mut block);
     }
 
     // ---- R1
